@@ -95,6 +95,9 @@ static struct rng R;
 static uint64_t g_seed;
 static const char *g_focus = "";
 static int task_poll_run;	/* consecutive non-blocking polls made with tasks pending */
+/* train plans, see A_TRAIN */
+static struct { int active, mode, o, cnt, clear_at, rereg_at, never_o; unsigned never_gen; int64_t T; } train_plan;
+static int64_t forced_expiry_sec = -1;
 static const char *g_method = "?";
 static int g_is_epoll, g_budget_base = 120;
 
@@ -138,7 +141,7 @@ static struct {
 	uint64_t cases, cb[K_NKIND], waits, fd_entries_checked, wait_entries_checked, timer_entries_checked,
 		 task_entries_checked, unreg_of_due, handler_changes, reinstall_while_ready, tfd_engaged_cases,
 		 multi_timer_iters, failed_reg, quits, reenters, deadline_checks, rk_nonempty, b_obligations,
-		 nt[8], eintr_seen, sig_raised, ev_posts, raw_posts, actions, frees_in_handler, struct_reuse, timer_rereg_without_init, never_timers, timer_clears, train_plans,
+		 nt[8], eintr_seen, sig_raised, ev_posts, raw_posts, actions, frees_in_handler, struct_reuse, timer_rereg_without_init, never_timers, timer_clears, train_plans, terminal_plans,
 		 hyg_checks, stim_applied, max_timers, pop_cases, pop_max;
 } S;
 
@@ -803,6 +806,12 @@ static int timer_register(int reuse_o)
 		pop_expiry(&t->expires);
 	else
 		pick_expiry(&t->expires);
+	if (forced_expiry_sec >= 0) {
+		t->expires.tv_sec = forced_expiry_sec;
+		t->expires.tv_nsec = 0;
+		forced_expiry_sec = -1;
+		picked_never = 0;
+	}
 	t->cookie = cookie_of(o);
 	t->handler = timer_cb;
 	objs[o].expires = t->expires;
@@ -961,7 +970,7 @@ static int pick_obj(int kind, int prefer_due)
 		struct obj *ob;
 		i = reglist[kind][(start + q) % nreg[kind]];
 		ob = &objs[i];
-		if (ob->reaper || ob->sweeper_of)
+		if (ob->reaper || ob->sweeper_of || (train_plan.active && kind == K_FD && i == train_plan.o))
 			continue;
 		if (nc < 64)
 			cand[nc++] = i;
@@ -983,6 +992,7 @@ static int pick_obj(int kind, int prefer_due)
 /* stimuli (applied by the shim at quiescence, in virtual-time order) */
 struct stim_arg { int kind, c, s, n; };
 
+static void trigger_reap(void);
 static void stim_fn(void *v)
 {
 	struct stim_arg *a = v;
@@ -999,6 +1009,8 @@ static void stim_fn(void *v)
 		case 2:	chan_drain(a->c, a->s); break;
 		}
 	}
+	if (a->kind == 9)
+		trigger_reap();		/* safety net of a terminal train plan: the case winds down */
 	if (a->kind == 3 && !g_no_eintr_stim)
 		vt_interrupt_wait();	/* a signal handler ran at this virtual instant: the kernel wait returns EINTR */
 	free(a);
@@ -1152,7 +1164,7 @@ static const unsigned char act_weight[A_NACT] = {
 static int self_obj = -1;	/* object whose handler is running (or -1) */
 /* a train (A_TRAIN) may carry a plan: at its n-th wake-up every timer is unregistered (the next poll has no time-out at all, after the
  * kernel timer was armed for the old earliest deadline), one or two wake-ups later a timer that is not earlier than that deadline is registered */
-static struct { int active, o, cnt, clear_at, rereg_at; int64_t T; } train_plan;
+
 
 static void do_one_action(void)
 {
@@ -1376,7 +1388,30 @@ static void do_one_action(void)
 				train_plan.clear_at = 6 + (int)rng_n(&R, nn - 7);
 				train_plan.rereg_at = train_plan.clear_at + 1 + (int)rng_n(&R, 2);
 				train_plan.T = m >= 0 ? ts_ns(&objs[m].expires) : vt_now();
+				train_plan.mode = 0;
 				S.train_plans++;
+				if (rng_pct(&R, 30) && !winding) {
+					/* terminal plan: the only timer is one parked 70-135 years away (seconds between 2^31 and 2^32), so the kernel timer gets
+					 * armed for it; then a task that keeps re-registering itself must still be served at once; then the case winds down */
+					int guard = 0, o2;
+					struct stim_arg *sa = malloc(sizeof(*sa));
+					while (nreg[K_TIMER] > 0 && guard++ < 4096)
+						obj_unreg(reglist[K_TIMER][nreg[K_TIMER] - 1], 1);
+					forced_expiry_sec = 2200000000LL + (int64_t)rng_n(&R, 2000000000u);
+					o2 = timer_register(-1);
+					if (o2 >= 0) {
+						objs[o2].never = 1;
+						train_plan.mode = 1;
+						train_plan.never_o = o2;
+						train_plan.never_gen = objs[o2].gen;
+						train_plan.clear_at = 6 + (int)rng_n(&R, nn - 7);	/* here: when the self-registering task starts */
+						train_plan.rereg_at = nn;				/* here: when the parked timer goes */
+						S.terminal_plans++;
+					}
+					forced_expiry_sec = -1;
+					sa->kind = 9; sa->c = 0; sa->s = 0; sa->n = 0;
+					vt_stim_at(t0 + (nn + 3) * step, stim_fn, sa);
+				}
 			}
 			trace("train(#%d,%d,%lld) ", o, nn, (long long)step); th(93, o, nn);
 			for (k = 1; k <= nn; k++) {
@@ -1540,6 +1575,20 @@ static void fd_cb(void *cookie, int band, int variant)
 			fd_set_handler(o, band, 0);
 		else
 			obj_unreg(o, 1);
+	}
+	if (train_plan.active && train_plan.mode == 1 && o == train_plan.o && band == B_IN && !winding) {
+		train_plan.cnt++;
+		if (train_plan.cnt == train_plan.clear_at) {
+			int o2 = task_register(-1);
+			if (o2 >= 0)
+				objs[o2].burner = 2 + rng_n(&R, 3);
+		} else if (train_plan.cnt >= train_plan.rereg_at) {
+			int v = train_plan.never_o;
+			train_plan.active = 0;
+			if (objs[v].kind == K_TIMER && objs[v].registered && objs[v].p != NULL && objs[v].gen == train_plan.never_gen)
+				obj_unreg(v, 1);
+		}
+		goto out;
 	}
 	if (train_plan.active && o == train_plan.o && band == B_IN && !winding) {
 		train_plan.cnt++;
